@@ -4,7 +4,9 @@
 //! `round_scale.rs` (scaled / overflowing / negative-radius disks and spheres, tiny and huge shapes) and
 //! `ray_scale.rs` (ray-triangle with triangle size, direction length and distance scaled by powers of two),
 //! `ray_edge.rs` (floats: crossings exactly on an edge / vertex, both windings and senses, exactly evaluable),
-//! `round_near.rs` (points a relative 1e-6 .. 1e-15 from the sphere, diagonals / axes, exact i128 oracle).
+//! `round_near.rs` (points a relative 1e-6 .. 1e-15 from the sphere, diagonals / axes, exact i128 oracle),
+//! `placed.rs` / `placed_ray.rs` (POSITION-RELATIVE regimes: figures small compared with their distance from the
+//! origin -- offset + local integer figure on a dyadic grid, every coordinate exact -- and mixed placements).
 //! All oracles work on plain arrays in the *oracle domain* `S::O` (`Rat` for `Rat`, `f64` for `f64`/`f32`)
 //! and never call the vek function they judge.
 
@@ -208,6 +210,8 @@ pub fn nonzero_count<S: Dom, const N: usize>(a: &[S; N]) -> usize {
     a.iter().filter(|x| !x.is_zero()).count()
 }
 
+mod placed;
+mod placed_ray;
 mod ray;
 mod ray_edge;
 mod ray_scale;
@@ -225,13 +229,15 @@ pub fn property() -> Property {
     ray_scale::checks(&mut checks);
     round_near::checks(&mut checks);
     ray_edge::checks(&mut checks);
+    placed::checks(&mut checks);
+    placed_ray::checks(&mut checks);
     Property {
         id: "C16",
         rule: "cases are byte tapes generated by proptest (uniform bytes, fixed seed) decoded by constructive generators into labelled classes (plus two exhaustive small integer grids); \
 a disk/sphere case is non-trivial when the radius is within one grid step (resp. the chosen delta) of the distance — tangency, just inside, just outside — or the offset has >= 2 non-zero components; \
 a shape case (bounds, measures) when the radius is neither 0 nor 1; a segment case when the segment is not axis-aligned or the foot of the perpendicular is at/next to an end or outside the segment; \
 a ray case when the crossing is on/next to an edge or vertex, the triangle is degenerate, the ray is parallel to the plane, or the direction has >= 2 non-zero components; \
-the *-scale-*, *-tiny-*, *-huge-* checks apply the same rules to the same arrangements multiplied exactly by powers of two (the scale regime is a label, not part of the rule); every ray-edge-* case counts (crossing exactly on an edge / vertex, or an exact control) unless it is labelled not exactly evaluable; a *-near-* case counts when |D2 - R^2| > 4 eps R^2 (asserted); every *-neg-* and *-shape-scale-* case counts (negative / special radius resp. radius far from 1 by construction); distinct = distinct consumed tape prefix per check",
+the *-scale-*, *-tiny-*, *-huge-* checks apply the same rules to the same arrangements multiplied exactly by powers of two (the scale regime is a label, not part of the rule); every ray-edge-* case counts (crossing exactly on an edge / vertex, or an exact control) unless it is labelled not exactly evaluable; a *-near-* case counts when |D2 - R^2| > 4 eps R^2 (asserted); every *-neg-* and *-shape-scale-* case counts (negative / special radius resp. radius far from 1 by construction); a *-placed-* case counts when |offset| / figure size >= 2^4 (or the placement is mixed: figure and query / ray origin at different offsets) and, for segments, start != end, for disks / spheres, the verdict is asserted; distinct = distinct consumed tape prefix per check",
         assumptions: &[
             "rustc and the proptest runner/shrinker are trusted",
             "oracles: integer / rational squared-distance comparison (no sqrt), Cramer solve through vkit::refmath::det (Leibniz), clamped-parameter closed form plus a 257-point sampling of the segment; none calls the vek function it judges",
@@ -244,6 +250,7 @@ the *-scale-*, *-tiny-*, *-huge-* checks apply the same rules to the same arrang
             "*-near-*: integer coordinates (|coordinate| < 2^53 resp. 2^24, differences exact), exact i128 oracle D2 <= R^2; the documented formula sqrt(sum of squares) <= radius has relative error <= 2.5 u in the distance (3 roundings under the sqrt count half, the sqrt one; the radius and r1 + r2 are exact), so it is forced wherever |D2 - R^2| > 5 u R^2; the band |D2 - R^2| <= 4 eps R^2 = 8 u R^2 (relative 2 eps in the distance: 4.4e-16 f64, 2.4e-7 f32) is not asserted, everything else is",
             "tolerances of every scaled check are relative to the magnitudes at that scale (no floor of 1): seg*-tiny/huge 32..64 eps * max|coordinate| (squares: 4 max^2), shape-scale 4..6 eps * |result|, collision vector 8 eps * |off_i|/d * (r1+r2+d) * 2^k",
             "preconditions of the base checks: radii >= 0; distinct centres for the collision vector; segments are either exactly degenerate (start == end, for which the code returns start) or ordinary: the seg*-tiny checks scale the arrangements down to 2^-40 so that 0 < |end-start|^2 <= T::epsilon() is covered (the base seg* checks keep squared length >= 1/64); ray-triangle determinants of ray-rat / ray-f64 are exactly 0 or >= 1e-3 in magnitude (kept clear of any parallel-test threshold; Rat's epsilon is 2^-52) -- the ray-scale-* checks cover small determinants at every scale; seg*-huge scale up to 2^400 (f32 2^44, Rat 2^16) where |end-start|^2 and the dot products stay finite",
+            "*-placed-*: every coordinate is an integer number of grid units 2^e (f32 |e| <= 20, f64 -60..40) below 2^24 / 2^53 in magnitude, hence exactly representable (verified per case, otherwise discarded: never happens by construction), and so are the differences vek forms first (p - start, end - start, centre - p, v1 - v0, origin - v0). Segments: with t = num/den exact (i128), A = sum |(p-start)_i (end-start)_i| and dt = (N+2) eps (A/den + |t|) (bound of the computed parameter: N products, N-1 sums, the same for |end-start|^2, one division), a point with t >= 1 + dt (t <= -dt), or with num >= den (num <= 0) when A < 2^mant and den < 2^mant make every operation exact, must project on END (START) with == (clamp gives exactly 1 / 0 and start + (end-start) * 1 is exact); otherwise coordinate i is within eps * max(|start_i|, |end_i|) + |d_i| (dt + eps (1 + dt)) + 4 eps_f64 |d_i| (oracle rounding) of the exact foot -- the derived bound is half of the first term -- and inside [min, max] of the two ends on that axis (monotone rounding, representable ends); distance_to_point within (4 eps + 4 eps_f64) * distance + the norm of the coordinate tolerances (0 for a decided clamp). What is NOT asserted: anything tighter than 1..2 ulps of the coordinates for a foot strictly inside. Disks / spheres: D2 < 2^22 (f32) / 2^48 (f64) exactly evaluable; `true` forced iff D2 <= R^2, `false` forced iff D2 > (R + ulp(R)/2)^2, nothing asserted in between (never met in the quick tier); radii grid integers or with <= 12 fraction bits, r1 + r2 exact; one far offset for the whole figure (a far point with a near centre needs a large radius: that is disk-int / *-near-*); bounds = the correctly rounded centre -+ radius (== the exact integer where representable, within half an ulp otherwise); collision vector within 8 eps |v_i|/d (r1+r2+d) of (v/d)(r1+r2-d) in LOCAL units (it depends on exact differences only). Rays: margins and tolerances of ray-scale-* evaluated on the local integer configuration (they do not involve the offset); far ray origins (up to 2^22 / 2^51 direction lengths) are asserted as far as those bounds allow, rounded unit directions only up to 2^24 direction lengths (i128 headroom of the oracle)",
             "the ray direction need not be normalised for the asserted statement (Some(t) with origin + t*direction the crossing point); a share of the cases uses exactly normalised (Pythagorean) directions",
             "float tolerances are k * eps(S) * scale with the k and scale stated at each comparison; max observed error/tolerance is recorded in the evidence",
         ],
